@@ -8,9 +8,22 @@ use crate::dump::*;
 use std::io::Write;
 use umya_spreadsheet::*;
 
-fn reachable(book: &Spreadsheet) -> Vec<String> {
+/// state of a workbook that was opened lazily: the file it came from and which sheets are materialised
+#[derive(Clone)]
+struct LazyInfo {
+    origin: String,
+    loaded: Vec<bool>,
+    names: Vec<String>,
+}
+
+fn reachable(book: &Spreadsheet, lazy: &Option<LazyInfo>) -> Vec<String> {
     let mut v = std::collections::BTreeSet::new();
-    for ws in book.get_sheet_collection_no_check() {
+    for (i, ws) in book.get_sheet_collection_no_check().iter().enumerate() {
+        if let Some(l) = lazy {
+            if !l.loaded.get(i).copied().unwrap_or(true) {
+                continue; // strings of unloaded sheets are taken from the origin file by the monitor
+            }
+        }
         for c in ws.get_cell_collection() {
             match c.get_raw_value() {
                 CellRawValue::String(_) | CellRawValue::RichText(_) => {
@@ -31,11 +44,19 @@ pub fn run(args: &Args) {
         let mut rng = Rng::new(seed, k);
         let mut uid = 0u32;
         let mut books: Vec<Spreadsheet> = vec![];
+        let mut lazies: Vec<Option<LazyInfo>> = vec![];
         let mut b0 = new_file();
-        if rng.chance(1, 2) {
+        if rng.chance(2, 3) {
             b0.new_sheet("Second").unwrap();
+            b0.get_sheet_mut(&1).unwrap().get_cell_mut((1, 1)).set_value_string(format!("s{}-second", k));
+        }
+        if rng.chance(1, 3) {
+            b0.new_sheet("Third").unwrap();
+            let last = b0.get_sheet_count() - 1;
+            b0.get_sheet_mut(&last).unwrap().get_cell_mut((2, 2)).set_value_string(format!("s{}-third", k));
         }
         books.push(b0);
+        lazies.push(None);
         let mut hist: Vec<String> = vec![];
         let mut nsaves = 0u32;
         let mut last_saved: Option<(usize, Vec<String>)> = None; // (book, history length marker) for the side-effect-free clause
@@ -53,7 +74,23 @@ pub fn run(args: &Args) {
             let nsheets = books[bi].get_sheet_count();
             let si = rng.below(nsheets as u64) as usize;
             let pos = (rng.range(1, 5), rng.range(1, 6));
-            let op = rng.below(14);
+            let mut op = rng.below(19);
+            if op >= 15 {
+                op = if op == 18 { 14 } else { 11 }; // more saves and lazy reloads
+            }
+            // a lazily opened workbook mostly keeps working on the sheets it has already materialised,
+            // so that other sheets stay unloaded across several saves
+            let si = match &lazies[bi] {
+                Some(l) if rng.chance(3, 4) => l.loaded.iter().position(|x| *x).unwrap_or(si).min(nsheets - 1),
+                _ => si,
+            };
+            if matches!(op, 0..=7) {
+                if let Some(l) = lazies[bi].as_mut() {
+                    if si < l.loaded.len() {
+                        l.loaded[si] = true; // get_sheet_mut materialises
+                    }
+                }
+            }
             let r = guard(|| match op {
                 0..=3 => {
                     let t = text(&mut uid, &mut rng);
@@ -91,6 +128,10 @@ pub fn run(args: &Args) {
                 8 => {
                     if nsheets > 1 {
                         books[bi].remove_sheet(si).unwrap();
+                        if let Some(l) = lazies[bi].as_mut() {
+                            l.loaded.remove(si);
+                            l.names.remove(si);
+                        }
                         hist.push(format!("book{} remove sheet {}", bi, si));
                     }
                 }
@@ -98,13 +139,29 @@ pub fn run(args: &Args) {
                     if books.len() < 4 {
                         let c = books[bi].clone();
                         books.push(c);
+                        let l = lazies[bi].clone();
+                        lazies.push(l);
                         hist.push(format!("book{} = clone of book{}", books.len() - 1, bi));
+                    }
+                }
+                14 => {
+                    // reload lazily and continue: sheets stay unloaded until touched
+                    if let Ok(bytes) = save(&books[bi], false) {
+                        if let Ok(Ok(b)) = guard(|| reader::xlsx::read_reader(std::io::Cursor::new(bytes.clone()), false)) {
+                            let origin = format!("case-{}-origin-{}.xlsx", k, hist.len());
+                            std::fs::write(format!("{}/{}", args.out, origin), &bytes).unwrap();
+                            let names: Vec<String> = b.get_sheet_collection_no_check().iter().map(|w| w.get_name().to_string()).collect();
+                            lazies[bi] = Some(LazyInfo { origin, loaded: vec![false; names.len()], names });
+                            books[bi] = b;
+                            hist.push(format!("book{} = lazy reload(save(book{}))", bi, bi));
+                        }
                     }
                 }
                 10 => {
                     // reload and continue
                     if let Ok(bytes) = save(&books[bi], false) {
                         if let Ok(b) = load(&bytes) {
+                            lazies[bi] = None;
                             books[bi] = b;
                             hist.push(format!("book{} = reload(save(book{}))", bi, bi));
                         }
@@ -112,7 +169,7 @@ pub fn run(args: &Args) {
                 }
                 _ => {
                     let light = rng.chance(1, 3);
-                    let reach = reachable(&books[bi]);
+                    let reach = reachable(&books[bi], &lazies[bi]);
                     let res = save(&books[bi], light);
                     nsaves += 1;
                     hist.push(format!("save book{} -> save#{}", bi, nsaves));
@@ -129,6 +186,8 @@ pub fn run(args: &Args) {
                                 ("nbooks", J::I(books.len() as i64)),
                                 ("repeat_of_previous", J::B(repeat)),
                                 ("reachable", J::A(reach.iter().map(js).collect())),
+                                ("lazy_origin", match &lazies[bi] { Some(l) => js(&l.origin), None => J::Null }),
+                                ("unloaded_sheets", match &lazies[bi] { Some(l) => J::A(l.names.iter().zip(&l.loaded).filter(|(_, ld)| !**ld).map(|(n, _)| js(n)).collect()), None => J::A(vec![]) }),
                                 ("history", J::A(hist.iter().map(js).collect())),
                             ]);
                             writeln!(meta.lock().unwrap(), "{}", line.to_string()).unwrap();
